@@ -86,6 +86,10 @@ func c17SheetXML(s c17Sheet) []byte {
 }
 
 func c17Workbook(sheets []c17Sheet, sst []c17SI) []byte {
+	return writeZip(c17WorkbookMembers(sheets, sst))
+}
+
+func c17WorkbookMembers(sheets []c17Sheet, sst []c17SI) []zipMember {
 	var wb, rels, ct strings.Builder
 	wb.WriteString(`<?xml version="1.0" encoding="UTF-8"?><workbook xmlns="http://schemas.openxmlformats.org/spreadsheetml/2006/main" xmlns:r="http://schemas.openxmlformats.org/officeDocument/2006/relationships"><sheets>`)
 	rels.WriteString(`<?xml version="1.0" encoding="UTF-8"?><Relationships xmlns="http://schemas.openxmlformats.org/package/2006/relationships">`)
@@ -119,7 +123,7 @@ func c17Workbook(sheets []c17Sheet, sst []c17SI) []byte {
 		{Name: "xl/sharedStrings.xml", Data: []byte(ss.String())},
 	}
 	all = append(all, ms...)
-	return writeZip(all)
+	return all
 }
 
 var c17Words = []string{"alpha", "b", "Total 2024", "x|y", "naïve", "日本", "a&b<c>", "q\"uote", "  padded ", "0", "-1.5", "1e3", "TRUE", "#N/A"}
